@@ -250,3 +250,61 @@ Example ex_invariance :
   word_count 1 2 (fst (reindex ex_e2)) ["aa"; "bb"; "aa"] "aa" = Some 2%nat /\
   word_count 1 2 (fst (reindex ex_e2)) ["aa"; "bb"; "aa"] "bb" = None.
 Proof. repeat split; reflexivity. Qed.
+
+(* a case the cap oracle accepts: two documents, unigrams, max_features = 1 keeps the more frequent word *)
+Definition ex_case : case :=
+  {| c_id := 0; c_mode := 1; c_lower := true; c_nmin := 1; c_nmax := 1;
+     c_mindf := 0; c_maxdf := 1065353216; c_stop := None; c_cap := Some 1%N; c_fixed := None;
+     c_train := []; c_test := []; c_method := 0; c_ln := [(1%float, 0%float)];
+     c_vocab := ["aa"]; c_nentries := 1; c_ctrain := {| cm_rows := 0; cm_cols := 0; cm_data := [] |};
+     c_ctest := {| cm_rows := 0; cm_cols := 0; cm_data := [] |};
+     c_tvocab := ["aa"]; c_tnentries := 1; c_ttrain := {| fm_rows := 0; fm_cols := 0; fm_data := [] |};
+     c_ttest := {| fm_rows := 0; fm_cols := 0; fm_data := [] |}; c_idfs := [];
+     c_vocab2 := ["aa"]; c_ctrain2 := {| cm_rows := 0; cm_cols := 0; cm_data := [] |};
+     c_tvocab2 := ["aa"]; c_ttrain2 := {| fm_rows := 0; fm_cols := 0; fm_data := [] |}; c_bounds := []; c_ratios := [] |}.
+Definition ex_grams : list (list string) := [["aa"; "bb"; "aa"]; ["aa"]].
+
+Example ex_cap_hyps : c_fixed ex_case = None /\ s_cap (settings_of ex_case) = Some 1%nat /\
+  oracle_vocab ex_case ex_grams ["aa"] = 0%N /\
+  (* ... and the oracle does reject the other choice and a vocabulary of the wrong size *)
+  oracle_vocab ex_case ex_grams ["bb"] = 8%N /\ oracle_vocab ex_case ex_grams ["aa"; "bb"] = 4%N.
+Proof. repeat split; vm_compute; reflexivity. Qed.
+
+(* a tf-idf matrix the oracle accepts: the values are the documented products (the ln table maps
+   3/3 = 1 to 0, so idf = 1 for "aa", which occurs in both documents) *)
+Definition ex_tfidf_m : fmat :=
+  {| fm_rows := 2; fm_cols := 1; fm_data := [[(0%N, 2%float)]; [(0%N, 1%float)]] |}.
+
+Example ex_tfidf_hyps : oracle_tfidf ex_case ["aa"] ex_grams ex_tfidf_m = (0%N, 0%N) /\
+  snd (oracle_tfidf ex_case ["aa"] ex_grams
+         {| fm_rows := 2; fm_cols := 1; fm_data := [[(0%N, 2%float)]; [(0%N, 2%float)]] |}) = 1%N.
+Proof. split; vm_compute; reflexivity. Qed.
+
+(** * the invariance check on two observed fits *)
+Lemma opt_eqb_sound {V} (eqV : V -> V -> bool) (Heq : forall x y, eqV x y = true -> x = y) a b :
+  opt_eqb eqV a b = true -> a = b.
+Proof. destruct a, b; simpl; intros H; try discriminate; auto. f_equal. apply Heq. exact H. Qed.
+
+Lemma content_eq_sound {V} (eqV : V -> V -> bool) (Heq : forall x y, eqV x y = true -> x = y)
+      (vocab1 vocab2 : list string) (rows1 rows2 : list (list (N * V))) :
+  content_eq eqV vocab1 rows1 vocab2 rows2 = true ->
+  (forall w, In w vocab1 <-> In w vocab2) /\
+  forall w, In w vocab1 -> exists i j, pos_of w vocab1 0%N = Some i /\ pos_of w vocab2 0%N = Some j /\
+    Forall2 (fun r1 r2 => sget_opt i r1 = sget_opt j r2) rows1 rows2.
+Proof.
+  unfold content_eq, same_set. intros H. apply andb_true_iff in H. destruct H as [HS HW].
+  apply andb_true_iff in HS. destruct HS as [HS _]. apply andb_true_iff in HS. destruct HS as [S1 S2].
+  apply subset_sound in S1. apply subset_sound in S2. split.
+  - intros w. split; [apply S1 | apply S2].
+  - intros w Hw. rewrite forallb_forall in HW. specialize (HW w Hw).
+    destruct (pos_of w vocab1 0%N) as [i|]; [|discriminate].
+    destruct (pos_of w vocab2 0%N) as [j|]; [|discriminate].
+    exists i, j. split; auto. split; auto.
+    apply forall2b_sound in HW. induction HW as [|r1 r2 l1 l2 H1 H2 IH]; constructor; auto.
+    apply (opt_eqb_sound eqV Heq). exact H1.
+Qed.
+
+Example ex_content_eq :
+  content_eq N.eqb ["aa"; "bb"] [[(0, 2); (1, 1)]; [(1, 3)]]%N ["bb"; "aa"] [[(0, 1); (1, 2)]; [(0, 3)]]%N = true /\
+  content_eq N.eqb ["aa"; "bb"] [[(0, 2); (1, 1)]]%N ["bb"; "aa"] [[(0, 2); (1, 1)]]%N = false.
+Proof. split; reflexivity. Qed.
